@@ -13,7 +13,7 @@ AUDIT_INPUT_FILES = True   # after every case the driver verifies that the synth
 PROPERTY = "C11"
 LEVEL = "exploration"
 CLAIM = {
-    "text": "Exploration by runtime monitoring: for seeded random fold geometries (period/tsamp ratios, accelerations, nbins 2..64, nints 1..8, nbands incl. non-divisors of nchans, DMs incl. gulp < 2*maxdelay) the fold kernel is driven directly on red-zone framed arrays to observe fold_ar/count_ar (conservation: counts sum to (nsamps-maxdelay)*nchans; every cell's count and exact integer sum equal the phase-model oracle), Filterbank.fold is run for several gulps (cube bit-identical across gulps, equal to the oracle's per-cell mean, NaN exactly where the oracle count is 0) and TimeSeries.fold is checked the same way; a strictly periodic pulse train folded at its period must occupy one phase bin in every sub-integration. Added: TimeSeries.fold of 2^18 .. 2^20 samples against the phase model, phases that are exactly integral in double arithmetic are judged strictly (the sample belongs to the bin that starts at the edge), and commensurate pulse trains are folded into bin counts that put samples exactly on bin edges; input files are re-hashed after every case. Rounds 7-8 added: series whose header carries an acceleration label and files whose header carries a reference DM (both are labels, the fold uses what it is asked for). Round 9 added: the same fold repeated on one series object after the cube was re-tuned and the samples changed in place.",
+    "text": "Exploration by runtime monitoring: for seeded random fold geometries (period/tsamp ratios, accelerations, nbins 2..64, nints 1..8, nbands incl. non-divisors of nchans, DMs incl. gulp < 2*maxdelay) the fold kernel is driven directly on red-zone framed arrays to observe fold_ar/count_ar (conservation: counts sum to (nsamps-maxdelay)*nchans; every cell's count and exact integer sum equal the phase-model oracle), Filterbank.fold is run for several gulps (cube bit-identical across gulps, equal to the oracle's per-cell mean, NaN exactly where the oracle count is 0) and TimeSeries.fold is checked the same way; a strictly periodic pulse train folded at its period must occupy one phase bin in every sub-integration. Added: TimeSeries.fold of 2^18 .. 2^20 samples against the phase model, phases that are exactly integral in double arithmetic are judged strictly (the sample belongs to the bin that starts at the edge), and commensurate pulse trains are folded into bin counts that put samples exactly on bin edges; input files are re-hashed after every case. Rounds 7-8 added: series whose header carries an acceleration label and files whose header carries a reference DM (both are labels, the fold uses what it is asked for). Round 9 added: the same fold repeated on one series object after the cube was re-tuned and the samples changed in place. Round 10 added: stretches of all-zero samples longer than several read blocks.",
     "design_ref": "DESIGN.md section 3 (C11), 2.2",
     "note": "Trusted: float64 evaluation of the documented phase formula from the float32-rounded tsamp/period/accel the kernel receives. Samples whose phase lies within 1e-9 (relative) of a bin boundary are ambiguous: if a strict comparison fails and such samples exist, only the per-(subint,subband) totals are judged. Whole-file folds only (start=0), delays >= 0.",
     "technique": "runtime monitoring: phase-model reference oracle on kernel accumulators + conservation check + gulp-independence + red-zone canaries",
